@@ -73,6 +73,8 @@ def step (s : TM Hash) (ws : List String) : TM Hash × String :=
   | ["q", "lastroot"] => match getLastRoot s.db with
     | some r => (s, rootStr r)
     | none => (s, "notfound")
+  -- the lookup while the root table cannot be read: an error, never a root
+  | ["q", "rootidx!", _] => (s, "err fault")
   | ["q", "rootidx", i] => match i.toNat? with
     | some i => match getRootByIndex s.db i with
       | some r => (s, rootStr r)
